@@ -335,7 +335,11 @@ func runContractProperty(e *Engine, res *checkResult, timeout int, two bool, wor
 		}
 		for k := range ft.assumed {
 			if !strings.HasPrefix(k, "heapinit:") {
-				res.trusted = appendUniq(res.trusted, "callee contract assumed at call sites: "+k)
+				if strings.HasPrefix(k, "HYPOTHESIS") || strings.HasPrefix(k, "ASSUME") {
+					res.trusted = appendUniq(res.trusted, k)
+				} else {
+					res.trusted = appendUniq(res.trusted, "callee contract assumed at call sites: "+k)
+				}
 			}
 		}
 		for k := range ft.havocked {
@@ -570,7 +574,7 @@ func truncate(s string, n int) string {
 func baseTrusted() []string {
 	return []string{
 		"go/ssa translation of the working tree (golang.org/x/tools v0.29.0)",
-		"the VC generator govc itself (mitigated by /verif/selftest must-fail corpus)",
+		"the VC generator govc itself (mitigated by the must-fail corpus /verif/seeded, run by /verif/tools/selftest.sh)",
 		"SMT solvers z3 5.1.0 / z3 4.8.12 / cvc5 1.0.3 (thorough tier: two solvers must agree)",
 		"library and environment specifications in /verif/specs/*.vc",
 	}
